@@ -183,7 +183,10 @@ def r_transforms(rule, root=None):
     else:
         rule.bad("RevolveY|shape", "RevolveY must remap_xyz once", A.where(LIB, fn))
     t = A.ftxt(fn["body"])
-    if "letoffset=Vec3::new(-v.offset,0.0,0.0);" in t and "offset:-offset" in t and "Move{shape:shape,offset:offset}" in t.replace("shape,offset", "shape:shape,offset:offset") or ("Move{shape:shape,offset:offset}" in t):
+    mo = t.fmatch("let$O=Vec3::new(v.offset,0.0,0.0);") or t.fmatch("let$O=Vec3::new(-v.offset,0.0,0.0);")  # the sign is R3b's business
+    mvs = [s_ for s_ in A.find(fn["body"], "Struct") if (A.path_segs(s_["path"]) or [None])[-1] == "Move"]
+    offs = sorted(str(A.ftxt(x["e"])) for s_ in mvs for x in s_["fields"] if x["name"] == "offset")
+    if mo is not None and offs == sorted(["-%s" % mo["$O"], mo["$O"]]):
         rule.ok("RevolveY shifts along X by its offset before and back after revolving")
     else:
         rule.bad("RevolveY|offset", "RevolveY must move by +/-offset along X only around the revolve", A.where(LIB, fn))
@@ -379,7 +382,26 @@ def r_named_constants(rule, root=None):
     # Axis::try_from normalises
     fn = A.find_fn(TYPES, "try_from", self_ty="Axis", root=root)
     t = A.ftxt(fn["body"])
-    if "Ok(Self((value/norm)))" in t and "letnorm=value.norm();" in t:
+    okn = False
+    for c in A.find(fn["body"], "Call"):
+        if A.is_path(c["func"], "Ok") and len(c["args"]) == 1:
+            inner = A.strip(c["args"][0])
+            if inner.get("k") == "Call" and (A.path_segs(inner["func"]) or [None])[-1] in ("Self", "Axis") and len(inner["args"]) == 1:
+                d = A.strip(inner["args"][0])
+                if d.get("k") == "Binary" and d["op"] == "/" and A.ident(A.strip(d["left"])) == "value":
+                    nrm = A.strip(d["right"])
+                    src = None
+                    if A.ident(nrm):
+                        lets = [l_ for l_ in A.find(fn["body"], "Let") if A.binding_name(l_["pat"]) == A.ident(nrm) and l_.get("init") is not None]
+                        if len(lets) == 1:
+                            src = str(A.ftxt(lets[0]["init"]))
+                        for p_, scr_ in (A.enclosing_patterns(fn["body"], c) or []):
+                            if A.binding_name(p_) == A.ident(nrm):
+                                src = str(A.ftxt(scr_))
+                    else:
+                        src = str(A.ftxt(nrm))
+                    okn = src == "value.norm()"
+    if okn:
         rule.ok("Axis::try_from normalises to unit length")
     else:
         rule.bad("Axis::try_from", "Axis::try_from must divide by the vector's norm", A.where(fn))
